@@ -1327,6 +1327,11 @@ private:
           break;
         case 'u':
           // Unicode escape - simplified implementation
+          if (_pos + 4 >= _text.size())
+          {
+            _error = "Invalid unicode escape";
+            return false;
+          }
           _pos += 4;  // Skip the 4 hex digits for now
           str += '?'; // Placeholder
           break;
@@ -1443,6 +1448,11 @@ private:
       }
 
       // Parse key
+      if (_pos >= _text.size())
+      {
+        _error = "Unexpected end of object";
+        return false;
+      }
       Json key;
       if (!_parseString(key))
       {
